@@ -65,6 +65,13 @@ def grid(tier):
     for engine in ("numpy", "normal"):
         yield {"kind": "read", "null": "-999.25", "engine": engine, "policy": "strict", "wrap": False, "textcol": False,
                "rows": 4, "cols": 3, "seed": 1, "has_null_item": False}
+    for nt in ("-9999.25", "-999.25"):       # samples equal to the NULL of lasio's *default* ~Well items, in files that state no NULL / have no ~Well
+        for engine in ("numpy", "normal"):
+            for wrap in (False, True):
+                for nws in (True, False):
+                    k += 1
+                    yield {"kind": "read", "null": nt, "engine": engine, "policy": "strict", "wrap": wrap, "textcol": False,
+                           "rows": 5, "cols": 3, "seed": 40 + k, "has_null_item": False, "no_well_section": nws}
     for nv in (-999.25, -9999, 0, 999.25, 1e30, 2147483647, -9999.25, -9999999.25, 99999999999, -99999999999, 3.4028235e+38):
         for wrap in (False, True):
             for engine in ("numpy", "normal"):
@@ -139,6 +146,10 @@ def run_read(case, ctx):
         for s in secs:
             if s["kind"] == "W":
                 s["items"] = [it for it in s["items"] if it[0] != "NULL"]
+        if case.get("no_well_section"):
+            # no ~Well section at all: the LASFile keeps its default items (NULL -9999.25), which the file does not state
+            secs = [s for s in secs if s["kind"] != "W"]
+            ctx.count("read_cases_without_well_section")
     phys = rows
     if case["wrap"]:
         phys = []
